@@ -214,6 +214,8 @@ def build_sampler(conf: dict, rec: psrun.Recorder | None, out_dir=None):
     if rec is not None:
         pt = rec.wrap_prior(pt)
         ll = rec.wrap_like(ll, vectorize=vec)
+    if isinstance(c["random_state"], str) and c["random_state"].startswith("np:"):
+        c["random_state"] = np.int64(int(c["random_state"][3:]))   # an integer seed of numpy type (what rng.integers / array indexing give)
     pool = c["pool"]
     if pool == "perm":
         pool = PermutingPool(seed=c.get("pool_seed", 0))
